@@ -135,3 +135,82 @@ Section ColMap.
     apply nth_error_None in En. unfold len in *. lia.
   Qed.
 End ColMap.
+
+(* ---------------------------------------------------------------------- *)
+(* display -> source on EVERY display column: a column inside the image
+   interval [m_i, m_(i+1)) of source column i maps back to i *)
+Lemma rev_find_notin : forall m k x acc, (forall v, In v m -> v <> x) -> rev_find m k x acc = acc.
+Proof.
+  induction m as [|p r IH]; intros k x acc H; cbn [rev_find]; [reflexivity|].
+  destruct (p =? x) eqn:E.
+  - exfalso. apply (H p); [now left | lia].
+  - apply IH. intros v Hv. apply H. now right.
+Qed.
+
+Lemma between_notin : forall m i a b x, incr_from 0 m ->
+  nth_error m i = Some a -> nth_error m (S i) = Some b -> a < x < b ->
+  forall v, In v m -> v <> x.
+Proof.
+  intros m i a b x I Ha Hb Hx v Hv Heq. subst v.
+  destruct (In_nth_error _ _ Hv) as [j Hj].
+  destruct (Nat.lt_trichotomy j i) as [H | [H | H]].
+  - pose proof (incr_nth_lt m 0 j i x a I H Hj Ha). lia.
+  - subst j. rewrite Ha in Hj. inversion Hj. lia.
+  - destruct (Nat.eq_dec j (S i)) as [-> | Hne].
+    + rewrite Hb in Hj. inversion Hj. lia.
+    + pose proof (incr_nth_lt m 0 (S i) j b x I ltac:(lia) Hb Hj). lia.
+Qed.
+
+Lemma tabs_d2s_loop_interior : forall m i a b, incr_from 0 m ->
+  nth_error m i = Some a -> nth_error m (S i) = Some b ->
+  forall n d fuel, d = a + Z.of_nat n -> d < b -> (n < fuel)%nat ->
+  tabs_d2s_loop fuel m d = Z.of_nat i.
+Proof.
+  intros m i a b I Ha Hb. pose proof (incr_nth_ge m 0 i a I Ha) as Ha0.
+  induction n as [|n IH]; intros d fuel Hd Hlt Hfuel; (destruct fuel as [|f]; [lia|]); cbn [tabs_d2s_loop].
+  - replace d with a by lia. destruct (a <? 0) eqn:E; [lia|].
+    rewrite (rev_find_some m 0 0 a None i I Ha). lia.
+  - destruct (d <? 0) eqn:E; [lia|].
+    rewrite (rev_find_notin m 0 d None) by (apply (between_notin m i a b d I Ha Hb); lia).
+    apply IH; lia.
+Qed.
+
+Lemma tabs_interior : forall m i a b d, incr_from 0 m ->
+  nth_error m i = Some a -> nth_error m (S i) = Some b -> a <= d < b ->
+  tabs_d2s m d = Z.of_nat i.
+Proof.
+  intros m i a b d I Ha Hb Hd. pose proof (incr_nth_ge m 0 i a I Ha) as Ha0.
+  unfold tabs_d2s. apply (tabs_d2s_loop_interior m i a b I Ha Hb (Z.to_nat (d - a))); lia.
+Qed.
+
+(* the merged map (BeforeInput + TabsProcessor): every display column d in the
+   image interval [s2d i, s2d (i+1)) of source column i >= 0 maps back to i *)
+Lemma colmap_interior : forall bflag before tabstop c1 c2 lineno line,
+  0 <= tabstop -> forall i a b d, 0 <= i ->
+  pl_s2d (process_line bflag before tabstop c1 c2 lineno line) i = Some a ->
+  pl_s2d (process_line bflag before tabstop c1 c2 lineno line) (i + 1) = Some b ->
+  a <= d < b ->
+  pl_d2s (process_line bflag before tabstop c1 c2 lineno line) d = i.
+Proof.
+  intros bflag before tabstop c1 c2 lineno line Htab i a b d Hi Ha Hb Hd.
+  pose proof (shift_nonneg bflag before tabstop c1 c2 lineno line) as Hsh.
+  unfold pl_s2d, pl_d2s in *.
+  destruct (pl_map (process_line bflag before tabstop c1 c2 lineno line)) as [m|] eqn:Em.
+  - pose proof (map_incr bflag before tabstop c1 c2 lineno line Htab m Em) as I.
+    unfold map_get in Ha, Hb.
+    set (sh := pl_shift (process_line bflag before tabstop c1 c2 lineno line)) in *.
+    destruct (i + sh <? 0) eqn:E1; [lia|]. destruct (i + 1 + sh <? 0) eqn:E2; [lia|].
+    replace (Z.to_nat (i + 1 + sh)) with (S (Z.to_nat (i + sh))) in Hb by lia.
+    rewrite (tabs_interior m (Z.to_nat (i + sh)) a b d I Ha Hb Hd). lia.
+  - inversion Ha; inversion Hb; subst. lia.
+Qed.
+
+(* the same, directly for the position_mappings TabsProcessor builds *)
+Lemma tabs_processor_interior : forall tabstop c1 c2 line i a b d, 1 <= tabstop ->
+  let m := snd (tabs_go tabstop c1 c2 line 0) in
+  nth_error m i = Some a -> nth_error m (S i) = Some b -> a <= d < b ->
+  tabs_d2s m d = Z.of_nat i.
+Proof.
+  intros tabstop c1 c2 line i a b d Ht m Ha Hb Hd.
+  destruct (tabs_go_incr tabstop c1 c2 line 0 Ht) as [I _]. now apply (tabs_interior m i a b d I).
+Qed.
